@@ -6,8 +6,15 @@ package discovery
 // C15: merging URLs under an inferred path parameter re-keys the statistics; the totals are preserved.
 // URL normalisation (the trie with inferred path parameters) is TRUSTED to touch nothing but the trie and may answer
 // anything: conservation must hold whatever keys it produces, collisions included.
+// ghost record of what the trie was taught: every batch is shown to the trie BEFORE its records are keyed (otherwise
+// records seen before the trie converges keep their literal URL and the statistics depend on the batch boundaries)
+//@ ghost var gTaught bool
+//@ ghost var gTaughtTree common.SimpleURLTreeI
+//@ ghost var gTaughtURLs []string
 //@ extern common.NormalizeTree
-//@   modifies nothing
+//@   params tree, urls
+//@   modifies gTaught, gTaughtTree, gTaughtURLs
+//@   ensures gTaught && gTaughtTree == tree && gTaughtURLs == urls
 //@ extern common.NormalizeURL
 //@   modifies nothing
 
@@ -27,9 +34,10 @@ package discovery
 //@   requires (aggregation.Endpoints == nil || allocated(aggregation.Endpoints)) && (aggregation.Consumers == nil || allocated(aggregation.Consumers))
 //@   requires forall(c, string, in(c, aggregation.Consumers) ==> aggregation.Consumers[c] == nil || allocated(aggregation.Consumers[c]))
 //@   requires forall(c, string, in(c, aggregation.Consumers) ==> forall(k, sharedDiscovery.Endpoint, in(k, aggregation.Consumers[c]) ==> aggregation.Consumers[c][k].Count >= 0 && (aggregation.Consumers[c][k].StatusCodes == nil || allocated(aggregation.Consumers[c][k].StatusCodes))))
-//@   modifies heap, cvSrc, cvDst, cvPrevD, cvPrevV
+//@   modifies heap, cvSrc, cvDst, cvPrevD, cvPrevV, gTaught, gTaughtTree, gTaughtURLs
 //@   allocates map
-//@   on entry do cvSrc = 0; cvDst = 0
+//@   on entry do cvSrc = 0; cvDst = 0; gTaught = false
+//@   loop 1 invariant[urls-of-the-batch] len(urls) == idx1 && forall(i, 0, idx1, urls[i] == accessLogs[i].URL)
 //@   loop 2 modifies mapof(endpointsAgg), cvSrc, cvDst, cvPrevD, cvPrevV
 //@   loop 2 hint[only-its-key] forall(k, sharedDiscovery.Endpoint, k != normEndpoint ==> (in(k, endpointsAgg) <==> cvPrevD[k]) && (in(k, endpointsAgg) ==> endpointsAgg[k] == cvPrevV[k]))
 //@   loop 2 do cvDst = cvDst + endpointsAgg[normEndpoint].Count - ite(cvPrevD[normEndpoint], cvPrevV[normEndpoint].Count, 0); cvSrc = cvSrc + agg.Count; cvPrevD = dom(endpointsAgg); cvPrevV = vals(endpointsAgg)
@@ -40,6 +48,7 @@ package discovery
 //@   loop 4 invariant[source-ok] (mapping == nil || allocated_at_entry(mapping)) && !allocated_at_entry(normMapping) && forall(k, sharedDiscovery.Endpoint, in(k, mapping) ==> mapping[k].Count >= 0 && (mapping[k].StatusCodes == nil || allocated(mapping[k].StatusCodes)))
 //@   loop 4 invariant[counts-non-negative] normMapping != nil && forall(k, sharedDiscovery.Endpoint, in(k, normMapping) ==> normMapping[k].Count >= 0 && (normMapping[k].StatusCodes == nil || allocated(normMapping[k].StatusCodes)))
 //@   ensures[requests-conserved] result1 == nil && convergenceOccurred ==> cvDst == cvSrc
+//@   ensures[the-trie-is-shown-every-url-of-the-batch] gTaught && gTaughtTree == tree && len(gTaughtURLs) == len(accessLogs) && forall(i, 0, len(accessLogs), gTaughtURLs[i] == accessLogs[i].URL)
 
 // Persistence: the key under which an endpoint's statistics are written is made of exactly its method and its URL
 // (case and all), so two endpoints that the in-memory aggregation keeps apart are kept apart on disk and the totals
